@@ -9,6 +9,8 @@
      decreate <seed> <n> lo hi ...
      decross  <seed> <p> <flo> <fhi> <n> <aget> t... <agea> a... <ageb> b... <agec> c...
      decrossa <seed> <alias> <p> ...   the same with aliased operands: <alias> = 4 digits for target, a, b, c; equal digits = one object
+     gaacc <seed> <n> <age> g... <i> <v>          accessors: size empty x[i] | x[i]=v -> genome | inc_age | ==
+     deacc <seed> <n> <age> g... <i> <v> <m> w...  the same for i_de, then operator=(vector w of length m)
    When the part after "|" is the word SEED the operators are run FROM THE SEED of the case line (vita::random::seed)
    through the modelled engine and libstdc++ distributions; the output then ends with "| <the draws the model made>".
    output:  g <genes> age <a> [n <changed>] [cuts c1 c2 | F <hex>] rest <unconsumed draws>   or  NONE *)
@@ -131,6 +133,33 @@ let () =
              (match de_create (pairs f64_of_hex rg) ds with
               | Some (x, ds') -> print_endline ("g " ^ show_f64s x.de_genome ^ " age " ^ dec_of_z x.de_age ^ " rest " ^ nrest ds')
               | None -> print_endline "NONE")
+         | "gaacc" :: _ :: n :: age :: rest ->
+             let n = int_of_string n in
+             let (g, rest) = take n rest in
+             let (i, v) = (match rest with i :: v :: _ -> (int_of_string i, zi v) | _ -> failwith "gaacc") in
+             let x = { ga_genome = List.map zi g; ga_age = zi age } in
+             let rd = (match ga_get x (nat_of_int i) with Some z -> dec_of_z z | None -> "OOB") in
+             let wr = (match ga_set x (nat_of_int i) v with
+                       | Some y -> "g " ^ show_ints y.ga_genome ^ " age " ^ dec_of_z y.ga_age ^ " eq " ^ (if ga_eqb x y then "1" else "0")
+                       | None -> "OOB") in
+             print_endline ("size " ^ dec_of_z (ga_size x) ^ " empty " ^ (if ga_empty x then "1" else "0") ^ " get " ^ rd
+                            ^ " set " ^ wr ^ " incage " ^ dec_of_z (ga_inc_age x).ga_age ^ " self " ^ (if ga_eqb x x then "1" else "0"))
+         | "deacc" :: _ :: n :: age :: rest ->
+             let n = int_of_string n in
+             let (g, rest) = take n rest in
+             let (i, v, rest) = (match rest with i :: v :: r -> (int_of_string i, f64_of_hex v, r) | _ -> failwith "deacc") in
+             let (m, rest) = (int_of_string (List.hd rest), List.tl rest) in
+             let (w, _) = take m rest in
+             let x = { de_genome = List.map f64_of_hex g; de_age = zi age } in
+             let rd = (match de_get x (nat_of_int i) with Some z -> hex_of_f64 z | None -> "OOB") in
+             let wr = (match de_set x (nat_of_int i) v with
+                       | Some y -> "g " ^ show_f64s y.de_genome ^ " age " ^ dec_of_z y.de_age ^ " eq " ^ (if de_eqb x y then "1" else "0")
+                       | None -> "OOB") in
+             let asg = (match de_assign x (List.map f64_of_hex w) with
+                        | Some y -> "g " ^ show_f64s y.de_genome ^ " age " ^ dec_of_z y.de_age ^ " eq " ^ (if de_eqb x y then "1" else "0")
+                        | None -> "SIZE") in
+             print_endline ("size " ^ dec_of_z (de_size x) ^ " get " ^ rd ^ " set " ^ wr ^ " assign " ^ asg
+                            ^ " incage " ^ dec_of_z (de_inc_age x).de_age ^ " self " ^ (if de_eqb x x then "1" else "0"))
          | "decross" :: _ :: p :: flo :: fhi :: n :: rest ->
              let n = int_of_string n in
              let ind rest =
